@@ -38,7 +38,9 @@ CLAIMS = {
          "then override-only keys), C03_new_section, C03_base_order, C03_sections_order, C03_nogroup_first, C03_bound (the result "
          "array is never written beyond |base|+|override| — the memory-safety obligation), C03_empty_*: all for ALL pairs of "
          "entry lists (any length, re-opened sections, duplicate keys, empty sides) of the model of econf_mergeFiles. "
-         "Inputs unchanged: C10_merge_inputs + dumps before/after in the runs. Correspondence: full dump of merge results "
+         "Inputs unchanged: C10_merge_inputs + dumps before/after in the runs. Inside a history (StoreFacts.v): "
+         "C03_history_independent (result and code are a function of the two argument objects only), C03_same_override_twice. "
+         "Correspondence: histories of eight merges sharing objects, and full dump of merge results "
          "of random pairs (quick) / all pairs up to 3+3 over {none,A,B}x{x,y} (thorough) built by setters or parsed."),
    technique="Coq proof (induction over the base's runs; per-section refinement to an association-list override) + differential correspondence",
    ref="6 (C03)"),
